@@ -124,7 +124,10 @@ CLAIMED['C16'] = dict(category='proof',
         'file): every dump file later opened for append is absent when set-up returns, nothing else is removed. '
         'RoddedRegion._update_coolant_int_params + _MatTracker: the reference state of the property tracker is the state of '
         'the last parameter calculation (never the construction-time state of the shared input material), and parameters '
-        'are recalculated iff a property moved by more than the tolerance.',
+        'are recalculated iff a property moved by more than the tolerance. Real check_parallel + __main__.run_dassh with a ghost '
+        'process pool and a recording worker (1-4 time points, serial / parallel, symbolic worker count): every time point is '
+        'handed exactly once to the same worker function with the same input object and arguments and its own directory; a '
+        'pool is used only for several time points and more than one worker; every asynchronous result is awaited.',
    note='Analyser assumptions (listed in the evidence): over-approximate call resolution, unresolved library calls assumed '
         'non-mutating, complete-copy detection uses a run-time type probe on sample inputs. The run-time contracts and the '
         'serial=parallel comparison are BOUNDED. Bitwise identity across processes / file-system layout not decided.',
